@@ -8,7 +8,7 @@
    these predicates for every production of the grammar, with no bound on sizes or counts.
    [vol_ok vb] says the same for a whole volume (parse at polarity unset or 0xFF, assemble with any
    incoming FFS3 flag). *)
-From Fiano Require Import Base.Bytes Model.Ffs Model.FfsSpec Model.FfsGrammar Proofs.FfsSaveProofs Proofs.FfsGrammarProofs.
+From Fiano Require Import Base.Bytes Model.Ffs Model.FfsSpec Model.FfsGrammar Model.FfsAbstract Proofs.FfsSaveProofs Proofs.FfsGrammarProofs.
 Open Scope Z_scope.
 
 Section C01.
@@ -113,6 +113,33 @@ Theorem C01_volume_ext : forall zero g attrs reserved rev count bsize more eo ex
   vol_ok dec enc u2s s2u nvar (vol_bytes_x zero g attrs reserved rev count bsize more eo ext files free).
 Proof. exact (vol_ok_files_x dec enc u2s s2u nvar). Qed.
 
+(* files rebuilt from their sections whose size reaches 16 MiB: the assembler writes the large
+   form (32-byte header, 64-bit size, checksum over the 32 bytes) and raises the volume's
+   "use FFSv3" flag ([file_okL]: like file_ok, with that flag as result) *)
+Theorem C01_file_sections_large : forall g t attr state secs,
+  zlen g = 16 -> bytes_ok g = true -> 0 <= t < 256 -> 0 <= attr < 256 -> 0 <= state < 256 ->
+  Z.land attr 1 = 1 -> supported_file t = true -> secs <> [] ->
+  Forall (sec_ok dec enc u2s s2u nvar) secs ->
+  16777215 <= 24 + zlen (sections_bytes secs) -> 32 + zlen (sections_bytes secs) < 2 ^ 64 - 1 ->
+  file_okL dec enc u2s s2u nvar (file_bytes_large g t attr state (sections_bytes secs)).
+Proof. exact (file_okL_sections dec enc u2s s2u nvar). Qed.
+
+(* ... and an FFSv3 volume holding any mix of such files and the files of the rules above is ok
+   (in an FFSv2 volume the assembler would switch the file-system GUID, so that is not an
+   identity and not claimed) *)
+Theorem C01_volume_ffs3_large_files : forall zero attrs reserved rev count bsize more eo ext files free,
+  zlen zero = 16 -> bytes_ok zero = true ->
+  0 <= attrs < 2 ^ 32 -> Z.land attrs 2048 <> 0 ->
+  0 <= reserved < 256 -> 0 <= rev < 256 ->
+  0 <= count < 2 ^ 32 -> 0 <= bsize < 2 ^ 32 -> (count =? 0) && (bsize =? 0) = false ->
+  forallb block_ok more = true -> fv_hlen more < 65536 ->
+  ext_ok (fv_hlen more) eo ext ->
+  Forall (fun f => file_ok dec enc u2s s2u nvar f \/ file_okL dec enc u2s s2u nvar f) files ->
+  files_aligned (fv_hlen more + zlen ext) files = true -> 0 <= free ->
+  fv_hlen more + zlen ext + zlen (flay files) + free < 2 ^ 64 ->
+  vol_ok dec enc u2s s2u nvar (vol_bytes_x zero FFS3 attrs reserved rev count bsize more eo ext files free).
+Proof. exact (vol_ok_files_ffs3 dec enc u2s s2u nvar). Qed.
+
 (* nesting: a firmware-volume-image section around any ok volume is an ok section, so the rules
    above compose to any depth (volume -> file -> FV-image section -> volume -> ...) *)
 Theorem C01_section_fv_image : forall vb, vol_ok dec enc u2s s2u nvar vb -> 4 + zlen vb < 16777215 ->
@@ -147,6 +174,15 @@ Theorem C01_wf_decidable : forall l trail,
   wfb_region u2s s2u l trail = true -> wf_region u2s s2u l trail.
 Proof. exact (wfb_region_sound u2s s2u). Qed.
 
+(* the same domain, decided on ARBITRARY bytes (a real firmware volume, a fuzz input): [in_grammar]
+   parses the image with the model, reads the tree back as a grammar value (Model/FfsAbstract.v),
+   and accepts only if that value re-serialises to exactly the image and is well-formed.  Whenever
+   it says yes, Parse followed by Save returns the image. *)
+Theorem C01_save_identity_bytes : forall d b,
+  in_grammar dec u2s s2u nvar d b = true ->
+  exists d0, forall d', (d0 <= d')%nat -> save_region dec enc u2s s2u nvar d' b = Ok b.
+Proof. exact (in_grammar_save_identity dec enc u2s s2u nvar). Qed.
+
 End C01.
 
 (* the scan hypotheses of C01_save_identity_region, from checkable conditions: 8-aligned padding,
@@ -171,10 +207,13 @@ Print Assumptions C01_file_opaque_large.
 Print Assumptions C01_file_sections.
 Print Assumptions C01_volume.
 Print Assumptions C01_volume_ext.
+Print Assumptions C01_file_sections_large.
+Print Assumptions C01_volume_ffs3_large_files.
 Print Assumptions C01_section_fv_image.
 Print Assumptions C01_save_identity_region.
 Print Assumptions C01_save_identity.
 Print Assumptions C01_wf_decidable.
+Print Assumptions C01_save_identity_bytes.
 Print Assumptions C01_scan_pair.
 Print Assumptions C01_scan_trail.
 
@@ -235,11 +274,11 @@ Example ex_grammar_wf :
   bytes_eqb (emit_region [(zrepeat 171 16, ex_gvol)] (zrepeat 205 24)) ex_region = true.
 Proof. vm_compute. split; reflexivity. Qed.
 
-(* a volume with three block-map entries (header length 88) and an extended header (12 extra data
-   bytes, so the files start at offset 120) holding the same files and a third file in the large form,
+(* a volume with three block-map entries (header length 88), 16 erased bytes, then an extended header
+   (12 extra data bytes, so the files start at offset 136) holding the same files and a third file in the large form,
    as a region of its own: well-formed, and the model saves it to itself *)
 Definition ex_gvol_x : vspec :=
-  VSpec (zrepeat 0 16) FFS3 327423 0 2 5 64 [(3, 16); (1, 4096)] (Some (zrepeat 51 16, zrepeat 9 12, []))
+  VSpec (zrepeat 0 16) FFS3 327423 0 2 5 64 [(3, 16); (1, 4096)] (Some (zrepeat 255 16, zrepeat 51 16, zrepeat 9 12, []))
         [ex_gfile; FOpaque (zrepeat 255 16) 9 170 240 0 248 (zrepeat 255 8);
          FOpaqueL (zrepeat 34 16) 1 2 1 1 248 [1; 2; 3; 4; 5]] 56.
 Example ex_grammar_ext :
@@ -249,6 +288,12 @@ Example ex_grammar_ext :
   | Ok b => bytes_eqb b (emit_region [([], ex_gvol_x)] [])
   | _ => false
   end = true.
+Proof. vm_compute. split; reflexivity. Qed.
+
+(* the byte-level decision procedure accepts both example regions *)
+Example ex_in_grammar :
+  in_grammar (fun _ _ => None) ex_u2s ex_s2u (fun _ => None) 5 ex_region = true /\
+  in_grammar (fun _ _ => None) ex_u2s ex_s2u (fun _ => None) 5 (emit_region [([], ex_gvol_x)] []) = true.
 Proof. vm_compute. split; reflexivity. Qed.
 
 (* ====================================================================================== *)
@@ -334,3 +379,68 @@ Example ex_flash_roundtrip :
   | _ => false
   end = true.
 Proof. vm_compute. reflexivity. Qed.
+
+(* ---------------------------------------------------------------------------------------- *)
+(* Kernel ties: the arithmetic kernels of pkg/uefi this property rests on, as TRANSCRIBED FROM
+   THE GO SOURCE on every run (translator/Kernels.sh -> Gen/GoKernels.v), equal the functions of
+   the model (Proofs/KernelTie.v).  A change of one of these Go functions breaks the lemma. *)
+From Fiano Require Import Base.Bytes Base.GoInt Gen.GoKernels Proofs.KernelTie.
+Local Open Scope Z_scope.
+
+Theorem C01_kernel_Align : forall v b, go_Align v b = Ffs.align_go v b.
+Proof. exact go_Align_tie. Qed.
+Print Assumptions C01_kernel_Align.
+
+Theorem C01_kernel_Align_pow2 : forall v k, 0 <= v -> 0 <= k < 64 -> v + 2 ^ k - 1 < 2 ^ 64 ->
+  go_Align v (2 ^ k) = Ffs.align v (2 ^ k).
+Proof. exact go_Align_pow2. Qed.
+Print Assumptions C01_kernel_Align_pow2.
+
+Theorem C01_kernel_Align4 : forall v, 0 <= v -> v + 3 < 2 ^ 64 -> go_Align4 v = Ffs.align4 v.
+Proof. exact go_Align4_tie. Qed.
+Print Assumptions C01_kernel_Align4.
+
+Theorem C01_kernel_Align8 : forall v, 0 <= v -> v + 7 < 2 ^ 64 -> go_Align8 v = Ffs.align8 v.
+Proof. exact go_Align8_tie. Qed.
+Print Assumptions C01_kernel_Align8.
+
+Theorem C01_kernel_Read3Size : forall a b c, 0 <= a < 256 -> 0 <= b < 256 -> 0 <= c < 256 ->
+  go_Read3Size [a; b; c] = le_dec [a; b; c].
+Proof. exact go_Read3Size_tie. Qed.
+Print Assumptions C01_kernel_Read3Size.
+
+Theorem C01_kernel_Write3Size : forall size, 0 <= size < 2 ^ 64 -> go_Write3Size size = le_enc 3 (Ffs.write3 size).
+Proof. exact go_Write3Size_tie. Qed.
+Print Assumptions C01_kernel_Write3Size.
+
+Theorem C01_kernel_Checksum8 : forall b, go_Checksum8 b = Ffs.sum8 b.
+Proof. exact go_Checksum8_tie. Qed.
+Print Assumptions C01_kernel_Checksum8.
+
+Theorem C01_kernel_Checksum16 : forall b, Z.even (zlen b) = true -> go_Checksum16 b = Ok (Ffs.sum16 b).
+Proof. exact go_Checksum16_tie. Qed.
+Print Assumptions C01_kernel_Checksum16.
+
+Theorem C01_kernel_Checksum16_odd : forall b, Z.even (zlen b) = false -> go_Checksum16 b = Err 1.
+Proof. exact go_Checksum16_odd. Qed.
+Print Assumptions C01_kernel_Checksum16_odd.
+
+Theorem C01_kernel_IsErased : forall buf pol, go_IsErased buf pol = forallb (fun x => x =? pol) buf.
+Proof. exact go_IsErased_tie. Qed.
+Print Assumptions C01_kernel_IsErased.
+
+Theorem C01_kernel_IsLarge : forall a, go_fileAttr_IsLarge a = Ffs.attr_large a.
+Proof. exact go_fileAttr_IsLarge_tie. Qed.
+Print Assumptions C01_kernel_IsLarge.
+
+Theorem C01_kernel_HasChecksum : forall a, go_fileAttr_HasChecksum a = Ffs.attr_checksum a.
+Proof. exact go_fileAttr_HasChecksum_tie. Qed.
+Print Assumptions C01_kernel_HasChecksum.
+
+Theorem C01_kernel_GetAlignment : forall a, 0 <= a < 256 -> go_fileAttr_GetAlignment a = Ok (Ffs.attr_align a).
+Proof. exact go_fileAttr_GetAlignment_tie. Qed.
+Print Assumptions C01_kernel_GetAlignment.
+
+Theorem C01_kernel_GetErasePolarity : forall attrs, go_FirmwareVolume_GetErasePolarity attrs = Ffs.fv_polarity attrs.
+Proof. exact go_FirmwareVolume_GetErasePolarity_tie. Qed.
+Print Assumptions C01_kernel_GetErasePolarity.
